@@ -41,7 +41,8 @@ func newGCState(t *rapid.T, st *Stats, forceOld bool) (*gcState, func()) {
 	g := &gcState{age: map[string]map[string]time.Duration{}}
 	dirStore := rapid.Bool().Draw(t, "dirStore")
 	g.untagged, g.dangling, g.withSubj, g.emptyRepo = rapid.Bool().Draw(t, "untagged"), rapid.Bool().Draw(t, "refDangling"), rapid.Bool().Draw(t, "refWithSubj"), rapid.Bool().Draw(t, "emptyRepo")
-	g.grace = rapid.SampledFrom([]time.Duration{-1, time.Hour}).Draw(t, "grace")
+	// "disable with a negative value": any negative value, not only the smallest
+	g.grace = rapid.SampledFrom([]time.Duration{-1, -time.Second, -time.Hour, time.Hour, time.Hour, time.Hour}).Draw(t, "grace")
 	e, cleanup := newEnv(t, st, dirStore, func(c *config.Config) {
 		c.Storage.GC.Untagged, c.Storage.GC.ReferrersDangling, c.Storage.GC.ReferrersWithSubj, c.Storage.GC.EmptyRepo = bp(g.untagged), bp(g.dangling), bp(g.withSubj), bp(g.emptyRepo)
 		c.Storage.GC.GracePeriod = g.grace
